@@ -210,7 +210,7 @@ func runC39(c *Ctx) {
 			}
 			for _, tc := range []struct {
 				n, p, q, eb, ev int64
-				want           bool
+				want            bool
 			}{
 				{2048, 1024, 1024, 17, 65537, true}, {16384, 8192, 8192, 24, 3, true}, {16385, 1024, 1024, 17, 65537, false},
 				{2048, 8193, 1024, 17, 65537, false}, {2048, 1024, 8193, 17, 65537, false}, {2048, 1024, 1024, 25, 65537, false},
